@@ -587,6 +587,7 @@ func TestVerifC18(t *testing.T) {
 	c18Orders(c, mc.Pick(c, 8, 9))
 	c18Histories(c, mc.Pick(c, 3, 4))
 	c18Files(c)
+	c18Tables(c, mc.Pick(c, 7, 8))
 	c18Bootstrap(c, mc.Pick(c, 4, 5))
 	c18Context(c, mc.Pick(c, 2, 3))
 	c18Dates(c)
